@@ -794,4 +794,10 @@ def registry(ctx):
     return res
 
 
-RULES = [config_table, aim, trace_entry, in_disk, registry]
+def no_stale(ctx):
+    from .common import stale_cache
+    return stale_cache(ctx, 'NO-STALE-STATE', ['RayGenerator'],
+                       'rays are launched from an earlier field / pupil state', min_methods=1)
+
+
+RULES = [no_stale, config_table, aim, trace_entry, in_disk, registry]
